@@ -108,10 +108,9 @@ Section Cases.
 
   Lemma P_num f n : signed n = false -> Pst rx f (ENum n).
   Proof.
-    intros Sg rest Hf. destruct n as [ng g]. unfold signed in Sg. simpl in Sg.
-    apply orb_false_iff in Sg as [-> Sg].
+    intros Sg rest Hf. destruct n as [ng g]. unfold signed in Sg. simpl in Sg. subst ng.
     exists (ENum (mkNum false g)), rest. split; [|split].
-    - destruct g; try discriminate; reflexivity.
+    - destruct g; reflexivity.
     - simpl. lia.
     - intro m. reflexivity.
   Qed.
@@ -147,7 +146,7 @@ Section Cases.
     induction l as [|a l IH]; intros n rest Hn HF.
     - destruct n; [simpl in Hn; lia|]. reflexivity.
     - destruct n; [simpl in Hn; lia|]. inversion HF as [|? ? [Wa Ta] HF']; subst.
-      unfold tailf. cbn [flat_map]. fold (tailf TComma toks l). rewrite <- app_comm_cons. rewrite <- app_assoc.
+      unfold tailf. cbn [flat_map]. fold (tailf TComma toks l). rewrite <- !app_comm_cons. rewrite <- app_assoc.
       cbn [pargs_tail].
       assert (Fo : follow 1 (tailf TComma toks l ++ TRParen :: rest)).
       { destruct l; [apply follow_rparen | apply follow_comma]. }
